@@ -45,7 +45,7 @@ func r16_1(r *Report, p *Program, e *syncEntry) {
 	r.Rule("R16.4", "no request when nothing changes")
 	r.Floor("R16.1", 3)
 	r.Floor("R16.3", 3)
-	r.Floor("R16.4", 2)
+	r.Floor("R16.4", 4)
 	if len(sinks) != 2 {
 		r.Fail("R16.1", FK(f), p.Pos(f.Pos()), "anchor-lost", sf("expected the UpdateStatus and Update of the target, found %d dynamic writes", len(sinks)))
 		return
@@ -78,6 +78,15 @@ func r16_1(r *Report, p *Program, e *syncEntry) {
 	allowed := map[string]bool{"SetLabels": true, "SetAnnotations": true, "SetNestedField[\"status\"]": true, "SetResourceVersion": true, "controllerutil.RemoveFinalizer": true}
 	muts := p.Mutations(f, copyCall)
 	ok, why := len(muts) >= 4, sf("only %d mutators found on the copy", len(muts))
+	have := map[string]bool{}
+	for _, m := range muts {
+		have[m.What] = true
+	}
+	for _, need := range []string{"SetLabels", "SetAnnotations", "SetNestedField[\"status\"]", "controllerutil.RemoveFinalizer"} {
+		if !have[need] {
+			ok, why = false, "the copy that is written never receives "+need+": what the hook named for it is computed and then dropped"
+		}
+	}
 	for _, m := range muts {
 		if !allowed[m.What] {
 			ok, why = false, "the target copy is also modified by "+m.What+" at "+p.InstrPos(m.Instr)+": a decorator may change only labels, annotations, status and its own finalizer"
@@ -176,6 +185,40 @@ func r16_1(r *Report, p *Program, e *syncEntry) {
 	}
 	statusChanged := func(l Lit) bool {
 		return !l.Pos && isDeepEqualLit(l) && strings.Contains(l.Atom, `unstructured.NestedMap)(`) && strings.Contains(l.Atom, ".Status")
+	}
+	// conversely a change is written: from the edge where a merge reported a change (or the status differs)
+	// no successful return is reached without a write
+	for what, g := range map[string]func(l Lit) bool{
+		"labels or annotations": func(l Lit) bool {
+			c, isC := l.Cond.(*ssa.Call)
+			return l.Pos && isC && strings.HasSuffix(engine.CallKey(c.Common()), "decorator.updateStringMap")
+		},
+		"status": statusChanged,
+	} {
+		var from []engine.Point
+		for _, b := range engine.BlocksInl(f) {
+			for i := range b.Succs {
+				if l, has := engine.EdgeLit(b, i); has && g(l) {
+					from = append(from, engine.Point{B: b.Succs[i]})
+				}
+			}
+		}
+		okW, whyW := len(from) > 0, "no branch on a change of "+what
+		if okW {
+			wq := engine.Query{Fn: f, From: from, Target: func(x ssa.Instruction) bool { rt, isR := x.(*ssa.Return); return isR && !isErrReturn(rt) },
+				CutInstr: func(x ssa.Instruction) bool {
+					for _, sk := range sinks {
+						if x == sk.Instr.(ssa.Instruction) {
+							return true
+						}
+					}
+					return false
+				}}.Find()
+			if wq != nil {
+				okW, whyW = false, "a change of "+what+" named by the hook can end in a successful sync without any write (the changes are alternatives, not a conjunction); "+pathWhy(wq)
+			}
+		}
+		r.Check("R16.4", FK(f)+"[change⇒write:"+what+"]", p.Pos(f.Pos()), okW, "a reported change reaches a write", whyW)
 	}
 	for _, s := range sinks {
 		in := s.Instr.(ssa.Instruction)
